@@ -1,5 +1,5 @@
 From Coq Require Import ZArith QArith Qround List Bool.
-From RV Require Export Base.PyNum Frame.Frame Convert.Cast.
+From RV Require Export Base.PyNum Frame.Frame Convert.Cast Convert.Converters Generated.Tables.
 Import ListNotations.
 Open Scope Q_scope.
 
@@ -9,12 +9,20 @@ Record pair := mkPair {
   p_declared : list Z; p_defaults : row;
   p_mapping : option (list (Z * source)) }.   (* the mapping ConvertBase.cast was called with (recorded); None = no cast seen *)
 
+(* the whole conversion, for the comparison with conv_run of the GENERATED description of the converter *)
+Record convrun := mkConvRun {
+  cr_conv : Z;                 (* number of the converter in Tables.convert.converters *)
+  cr_args : cargs;             (* shift, raise_bad_mode, the numbers of the declared default strings in this case *)
+  cr_src : srcset;             (* source mapset attributes + source charts (lists as frames, attributes) *)
+  cr_impl : list chart }.      (* the charts the implementation returned, in order *)
+
 Inductive c08case :=
 | CConv (shift : Q) (pairs : list pair)
         (others : list (frame * list Z))        (* target lists not made by cast, with their declared columns *)
         (meta : list (cell * cell))             (* (value required by the source, value found in the target) *)
         (n_src n_out : nat)
-        (src_before src_after : list frame).
+        (src_before src_after : list frame)
+        (run : option convrun).                 (* None: the implementation raised *)
 
 Record verdict := { corr_ok : bool; spec_ok : bool; wf_ok : bool }.
 
@@ -59,11 +67,52 @@ Definition pair_wf (p : pair) : bool :=
                           | Some vs => forallb (fun v => match v with CNum _ => true | _ => false end) vs
                           | None => false end) CONTENT.
 
+(* model output = implementation output: same lists in the same (name) order with the same columns and values row by
+   row; every attribute the model assigned has that value in the implementation's chart *)
+Fixpoint lists_eqb (a b : list (Z * frame)) : bool :=
+  match a, b with
+  | [], [] => true
+  | (n, f) :: a', (n', f') :: b' => (n =? n')%Z && frame_vals_eqb f f' && lists_eqb a' b'
+  | _, _ => false
+  end.
+Definition mval_opt_eqb (a b : option mval) : bool :=
+  match a, b with Some x, Some y => mval_eqb x y | _, _ => false end.
+Definition chart_eqb (model impl : chart) : bool :=
+  lists_eqb (c_lists model) (c_lists impl)
+  && forallb (fun kv => mval_opt_eqb (assocM (fst kv) (c_meta model)) (assocM (fst kv) (c_meta impl))) (c_meta model).
+Fixpoint charts_eqb (a b : list chart) : bool :=
+  match a, b with
+  | [], [] => true
+  | x :: a', y :: b' => chart_eqb x y && charts_eqb a' b'
+  | _, _ => false
+  end.
+Definition run_corr (r : option convrun) : bool :=
+  match r with
+  | None => true
+  | Some r =>
+      match assocZ (cr_conv r) Tables.convert.converters with
+      | None => false
+      | Some d => match conv_run d (cr_args r) (cr_src r) (cr_impl r) with
+                  | None => false
+                  | Some outs => charts_eqb outs (cr_impl r)
+                  end
+      end
+  end.
+(* the case is inside the domain of C08_converter_preserves *)
+Definition run_wf (r : option convrun) : bool :=
+  match r with
+  | None => true
+  | Some r => match assocZ (cr_conv r) Tables.convert.converters with
+              | None => false
+              | Some d => srcset_wfb d (cr_args r) (cr_src r) (cr_impl r)
+              end
+  end.
+
 Definition check (c : c08case) : verdict :=
   match c with
-  | CConv shift pairs others meta n_src n_out sb sa =>
+  | CConv shift pairs others meta n_src n_out sb sa run =>
       let wf := forallb pair_wf pairs in
-      {| corr_ok := forallb (pair_corr shift) pairs;
+      {| corr_ok := forallb (pair_corr shift) pairs && run_corr run;
          spec_ok := negb wf ||
            (forallb (pair_spec shift) pairs
             && forallb (fun o => zlist_eqb (fcols (fst o)) (snd o) && no_nan (fst o)) others
@@ -73,7 +122,7 @@ Definition check (c : c08case) : verdict :=
                               | [], [] => true
                               | a :: x', b :: y' => frame_eqb a b && go x' y'
                               | _, _ => false end) sb sa);
-         wf_ok := wf |}
+         wf_ok := wf && run_wf run |}
   end.
 
 Fixpoint failing_go (i : nat) (l : list c08case) (acc : list nat * list nat * list nat)
